@@ -247,3 +247,28 @@ impl Maps {
         Ok(())
     }
 }
+
+
+// ---- equality that folds case needs a hash that folds case
+pub struct BadCaseKey(pub Vec<u8>);
+impl PartialEq for BadCaseKey {
+    fn eq(&self, other: &Self) -> bool {
+        self.0.eq_ignore_ascii_case(&other.0)
+    }
+}
+impl std::hash::Hash for BadCaseKey {
+    fn hash<H: std::hash::Hasher>(&self, state: &mut H) {
+        self.0.hash(state);
+    }
+}
+pub struct GoodCaseKey(pub Vec<u8>);
+impl PartialEq for GoodCaseKey {
+    fn eq(&self, other: &Self) -> bool {
+        self.0.eq_ignore_ascii_case(&other.0)
+    }
+}
+impl std::hash::Hash for GoodCaseKey {
+    fn hash<H: std::hash::Hasher>(&self, state: &mut H) {
+        self.0.to_ascii_lowercase().hash(state);
+    }
+}
